@@ -199,6 +199,8 @@ def run(chk):
                   "beyond the register-passed ones never read a neighbouring group's order as register ids")
     from lib import floatret
     floatret.run(chk)
+    from lib import usedregs
+    usedregs.run(chk)
     return chk.finish(
         level="other",
         explanation=("Convention-table clause only: the records built by x86/a64 init_call_conv (extracted from the AST per architecture "
